@@ -23,6 +23,7 @@ type CrashCfg struct {
 	Timed     bool
 	WriteHeavy bool // C07: several files, stability mix, COMMITs
 	BigFiles  bool // files > 511 blocks: multi-transaction frees by the shrinker
+	Dense     bool // C07: unstable writes around a big truncation of a dense file and around a cut inside the double-indirect range
 	Restarts  bool // clean restarts without flush inside the workload
 	Lossy     int  // lossy images per cut
 	Depth2Every int // cut the recovery run of every n-th image again (0 = never)
@@ -283,6 +284,33 @@ func runCrashWorkload(cfg CrashCfg, seed uint64, cas int, res *CrashRes) *crashW
 				if oo := s.m.Obj(o.FH); oo != nil {
 					op = &Op{K: OpSetattr, H: o.FH, SetSize: true, Size: oo.Size}
 				}
+			}
+		case cfg.Dense && i == cfg.NOps/2+1:
+			// unstable writes around truncations: (1) a dense file is cut by more
+			// than one transaction can free and an UNSTABLE write lands below the
+			// old end while the free is still pending, then growth and a read;
+			// (2) data in the double-indirect range, a cut to an unaligned size
+			// inside it, unstable regrowth, a read of the bytes between
+			r := doOne(&Op{K: OpCreate, H: s.srv.Root, Name: "dense"})
+			if r.Stat == stOK {
+				for k := 0; k < 9; k++ {
+					s.nextUid++
+					n := uint32(64 * BlockSize)
+					doOne(&Op{K: OpWrite, H: r.FH, Off: uint64(k) * 64 * BlockSize, Count: n, DataLen: n, Uid: s.nextUid, Stable: 0})
+				}
+				doOne(&Op{K: OpCommit, H: r.FH})
+				doOne(&Op{K: OpSetattr, H: r.FH, SetSize: true, Size: BlockSize + 100})
+				s.nextUid++
+				doOne(&Op{K: OpWrite, H: r.FH, Off: 3*BlockSize + 50, Count: 700, DataLen: 700, Uid: s.nextUid, Stable: 0})
+				doOne(&Op{K: OpSetattr, H: r.FH, SetSize: true, Size: 12 * BlockSize})
+				doOne(&Op{K: OpRead, H: r.FH, Off: 0, Count: 65536})
+				s.nextUid++
+				doOne(&Op{K: OpWrite, H: r.FH, Off: 530 * BlockSize, Count: 3000, DataLen: 3000, Uid: s.nextUid, Stable: 0})
+				doOne(&Op{K: OpSetattr, H: r.FH, SetSize: true, Size: 530*BlockSize + 1000})
+				s.nextUid++
+				doOne(&Op{K: OpWrite, H: r.FH, Off: 531 * BlockSize, Count: 100, DataLen: 100, Uid: s.nextUid, Stable: 0})
+				doOne(&Op{K: OpRead, H: r.FH, Off: 530 * BlockSize, Count: 8192})
+				op = &Op{K: OpCommit, H: r.FH}
 			}
 		case cfg.WriteHeavy && i%13 == 6:
 			// a request whose transaction the journal rejects (too large), in the
